@@ -1,2 +1,27 @@
-(* C12.  Theorems are added here as they are proved. *)
-From PJ.Model Require Import Base.
+(* C12 -- streams are isolated and serialization is deterministic. *)
+From PJ.Model Require Import Base Terms Encoder Streams Decoder Api World.
+From PJ.Proofs Require Import WorldProofs.
+
+(* Determinism is by type: Api.api_encode and Decoder.parse_stream are functions of their
+   arguments.  Isolation: a process holding any number of streams, stepped in any interleaving,
+   leaves each stream in the state -- and gives it the outputs -- it has when run alone. *)
+Theorem C12_isolation_writers :
+  forall (ops : list (nat * sop)) (w : list stream) (i : nat) (s : stream),
+    nth_error w i = Some s ->
+    nth_error (fst (wrun run_op ops w)) i = Some (fst (run_alone run_op (ops_of i ops) s)) /\
+    outs_of i (snd (wrun run_op ops w)) = snd (run_alone run_op (ops_of i ops) s).
+Proof. exact (isolation run_op). Qed.
+Print Assumptions C12_isolation_writers.
+
+(* the same for decoders stepped row by row *)
+Definition dec_step (ig : integ) (ak : adapter_kind) (po : poptions) (r : row) (st : dstate)
+  : dstate * option (list event) :=
+  match decode_row ig ak po r st with Ok (st', evs) => (st', Some evs) | Err _ => (st, None) end.
+
+Theorem C12_isolation_parsers :
+  forall (ig : integ) (ak : adapter_kind) (po : poptions) (ops : list (nat * row)) (w : list dstate) (i : nat) (s : dstate),
+    nth_error w i = Some s ->
+    nth_error (fst (wrun (dec_step ig ak po) ops w)) i = Some (fst (run_alone (dec_step ig ak po) (ops_of i ops) s)) /\
+    outs_of i (snd (wrun (dec_step ig ak po) ops w)) = snd (run_alone (dec_step ig ak po) (ops_of i ops) s).
+Proof. intros ig ak po. exact (isolation (dec_step ig ak po)). Qed.
+Print Assumptions C12_isolation_parsers.
